@@ -187,7 +187,12 @@ func separatorHistory(h *HistGen, sep string) []J {
 	probe()
 	for step := 0; step < 4; step++ {
 		c := colls[g.pick(3)]
-		switch g.pick(5) {
+		switch g.pick(7) {
+		case 5:
+			// the whole collection, with no criteria: nothing of the collections whose names extend this one may go with it
+			lines = append(lines, opLine("delete", J{"q": J{"coll": hx(c)}}))
+		case 6:
+			lines = append(lines, opLine("update", J{"q": J{"coll": hx(c)}, "upd": J{"setAll": []interface{}{[]interface{}{hx(f1), encValue(int64(g.pick(50)))}}}, "viaUpdate": 1}))
 		case 0:
 			lines = append(lines, opLine("dropIndex", J{"coll": hx(c), "field": hx(fields[c][g.pick(len(fields[c]))])}))
 		case 1:
